@@ -5,6 +5,10 @@ HERE = os.path.dirname(os.path.dirname(os.path.abspath(__file__)))
 
 # id -> (technique, level text, level note, design section)
 CHECKS = {
+ "C15": ("explicit-state exploration of edit histories over {sort_new_items, push kind k, merge module j} with the real A2lFile as state: all action sequences to depth 4/5, deviation-bounded long histories (<= 2 non-default actions at every pair of positions), consecutive-call ladders",
+         "(i) every sequence of the 10 actions up to depth 4 (thorough 5) from 4 start files, observed after each step; (ii) histories of 40 (thorough 72 and 300) sort_new_items calls with at most two other actions at every (pair of) position(s); (iii) 64 consecutive calls on files with 1..1000 elements and 40 (200) insert/sort cycles per kind. Observation: order of the module's children in write_to_string. Oracle: the relative order of elements that have a position never changes, after a call every newly placed element sits in the run directly behind the last placed element of its kind, elements without an anchor stay behind all placed ones, no panic or overflow (overflow checks on).",
+         "'placed' means the element has a position key (uid != 0); elements of a kind without any placed element keep floating at the end, which the repository's own test asserts as intended; IF_DATA blocks have no identity and are only covered by order stability",
+         "DESIGN.md 5/C15"),
  "C14": ("exhaustive enumeration of unsorted modules (all duplicate-free sequences over 6 kinds x 4 names up to length 3/4, all ordered pairs of list kinds, singletons at every position, two modules) with permutation / grouping / reload / idempotence oracles",
          "All duplicate-free sequences of up to 3 (thorough 4) elements over 6 element kinds and the names {aa, ab, b, ba}, every ordered pair of the 22 module-level list kinds with and without comments, each singleton at every position, two modules in both orders, the rich corpus documents. After sort(): every list holds the same elements with unchanged content; in the written text each kind is contiguous and names ascend; the written file reloads to an equal model in equal list order and is a textual fixpoint; a second sort() changes nothing.",
          "names are lower-case ASCII without digits so that every reading of 'alphabetical' agrees",
